@@ -310,7 +310,7 @@ class AliasPrinter(NodeVisitor[str]):
     def _visit_ref_expr(self, node: NameExpr | MemberExpr) -> str:
         fullname = self.stubgen.get_fullname(node)
         if fullname in TYPING_BUILTIN_REPLACEMENTS:
-            return self.stubgen.add_name(TYPING_BUILTIN_REPLACEMENTS[fullname], require=False)
+            return self.stubgen.add_name(TYPING_BUILTIN_REPLACEMENTS[fullname], require=True)
         qualname = get_qualified_name(node)
         self.stubgen.import_tracker.require_name(qualname)
         return qualname
